@@ -761,7 +761,7 @@ Section Sched.
          u0 <~ fresh_uuid ;;
          u <~ (if ns_test_ids s then new_test_or_uuid false else nret u0) ;;
          rebind u ;;~
-         (match a_src a with [] => nret tt | _ :: _ => set_api ai (with_params (a_src a)) end) ;;~
+         set_api ai (with_params (a_src a)) ;;~
          substitute_loop_indexes ai
        else if ns_test_ids s
             then u <~ new_test_or_uuid false ;; rebind u
